@@ -8,7 +8,7 @@ use proptest::prelude::*;
 use secrecy::{ExposeSecret, SecretString};
 use serde::{Deserialize, Serialize};
 use serde_json::Value;
-use sos_account::{Account, LocalAccount};
+use sos_account::Account;
 use sos_client_storage::{AccessOptions, NewFolderOptions};
 use sos_core::{
     crypto::{AccessKey, AeadPack, Cipher, DerivedPrivateKey, PrivateKey},
@@ -27,10 +27,12 @@ use std::path::Path;
 pub const META: PropertyMeta = PropertyMeta {
     id: "C03",
     level: "exploration",
-    rule: "every plaintext the harness writes carries a fresh marker derived (SHA-256) from a proptest-drawn case seed and its position: text fields embed 'MK' + 20 base32 characters (100 bits), byte payloads are registered by their first 24..48 bytes; markers are registered with their field path and field kind only when they are live in the exposed serde form of the built secret. Sub-check `local`: a LocalAccount on a generated backend x cipher x KDF cell; 5..8 create_secret of pairwise distinct kinds (all 15 kinds: note, embedded file, account, list, pem, page, signer, contact, totp, card, bank, link, password, identity, age; user data comment / recovery note / 0..3 custom fields; label; 0..2 tags), then 0..10 (quick) / 0..25 (thorough) ops over create / update (meta only, value, with move) / move / delete / archive / unarchive / folder create, rename, flags, description (marker text), delete / lock+unlock / sign-out+in / fresh instance / folder-level create, update, delete / compact_folder, in ~30% of the cases one external file attachment (marker bytes, marker file name; plaintext source kept outside the scanned directories), then 0..3 rewrites from {compact_folder, compact_account, change_folder_password, change_account_password (marker passwords), change_cipher}, then export_backup_archive (v2 on fs, v3 on sqlite) into a case directory, then sign-out. The raw byte scan runs after every op, after the export and after sign-out over: every file below the client data dir (incl. *.db, -wal, -shm, snapshots, temp files, blobs), the exported zip (raw and every DEFLATE-decompressed entry), the bytes the process-global audit trail grew by, and the tracing output captured in memory under the product's default filter. Sub-check `sync`: engine B (2 devices + in-process ServerStorage behind the wire-encoding DirectClient with capture on): 5..7 creates of distinct kinds + description on device 0, account creation on the server (CreateSet), clone to device 1, 1..4 offline edits per device on shared folders (auto-merge scan/diff/patch), generated sync order + round robin to a fixpoint (<= 4 passes), optionally change_folder_password / change_account_password on device 0 followed by the UpdateSet NetworkAccount would send and further syncs; scan over both device dirs, the server dir (fs or sqlite), every captured wire buffer, audit delta and tracing; every AeadPack decoded from the server's identity and folder event logs must fail to decrypt under an unrelated key with either symmetric cipher. Dynamic needles read back from the unlocked account(s): account password(s), every secret of the identity vault (all delegated folder passwords incl. the device vault's, file-encryption password, age identity as string and as raw 32 bytes), device signing key bytes. Encodings searched per needle: raw, hex lower/upper, base64 std/url-safe at 3 alignments, UTF-16LE/BE (text), base32 upper/lower at 5 alignments. Non-trivial (local) = >= 5 distinct secret kinds written and >= 1 archive with >= 1 entry scanned and the scan visited >= 1 sqlite file or >= 1 event log; non-trivial (sync) = >= 5 kinds written, >= 1 sync returned Ok, >= 1 captured wire buffer and the server scan visited >= 1 sqlite file or >= 1 event log. Distinct = distinct case. A planted-marker self-test of the scanner (every encoding through independent encoders, file walk, deflated zip entry, tracing capture, negative buffer) runs first in every worker; a failing self-test makes the run inconclusive.",
+    rule: "every plaintext the harness writes carries a fresh marker derived (SHA-256) from a proptest-drawn case seed and its position: text fields embed 'MK' + 20 base32 characters (100 bits), byte payloads are registered by their first 24..48 bytes; markers are registered with their field path and field kind only when they are live in the exposed serde form of the built secret. Sub-check `local`: a LocalAccount on a generated backend x cipher x KDF cell; 5..8 create_secret of pairwise distinct kinds (all 15 kinds: note, embedded file, account, list, pem, page, signer, contact, totp, card, bank, link, password, identity, age; user data comment / recovery note / 0..3 custom fields; label; 0..2 tags), then 0..10 (quick) / 0..25 (thorough) ops over create / update (meta only, value, with move) / move / delete / archive / unarchive / folder create, rename, flags, description (marker text), delete / lock+unlock / sign-out+in / fresh instance / folder-level create, update, delete / compact_folder, in ~30% of the cases one external file attachment (marker bytes, marker file name; plaintext source kept outside the scanned directories), then 0..3 rewrites from {compact_folder, compact_account, change_folder_password, change_account_password (marker passwords), change_cipher}, then export_backup_archive (v2 on fs, v3 on sqlite) into a case directory, then sign-out. The raw byte scan runs after every op, after the export and after sign-out over: every file below the client data dir (incl. *.db, -wal, -shm, snapshots, temp files, blobs), the exported zip (raw and every DEFLATE-decompressed entry), the bytes the process-global audit trail grew by, and the tracing output captured in memory under the product's default filter. Sub-check `sync`: engine B (2 devices + in-process ServerStorage behind the wire-encoding DirectClient with capture on): 5..7 creates of distinct kinds + description on device 0, account creation on the server (CreateSet), clone to device 1, 1..4 offline edits per device on shared folders (auto-merge scan/diff/patch), generated sync order + round robin to a fixpoint (<= 4 passes), optionally change_folder_password / change_account_password on device 0 followed by the UpdateSet NetworkAccount would send and further syncs; scan over both device dirs, the server dir (fs or sqlite), every captured wire buffer, audit delta and tracing; every AeadPack decoded from the server's identity and folder event logs must fail to decrypt under an unrelated key with either symmetric cipher. Sub-check `http`: the real client (NetworkAccount, fs or sqlite) against the real sos_server on 127.0.0.1 (fs or sqlite): 5..7 creates of distinct kinds, a marker description and one external file attachment before add_server (initial sync sends the CreateSet over HTTP), 0..2 creates afterwards (each syncs), bounded wait for the uploaded blob; scan of the client dir, the server directory (config, storage, blobs), audit delta and tracing (sos_net / sos_protocol at debug) before add_server, after the upload and after sign-out + server shutdown. Dynamic needles read back from the unlocked account(s): account password(s), every secret of the identity vault (all delegated folder passwords incl. the device vault's, file-encryption password, age identity as string and as raw 32 bytes), device signing key bytes. Encodings searched per needle: raw, hex lower/upper, base64 std/url-safe at 3 alignments, UTF-16LE/BE (text), base32 upper/lower at 5 alignments. Non-trivial (local) = >= 5 distinct secret kinds written and >= 1 archive with >= 1 entry scanned and the scan visited >= 1 sqlite file or >= 1 event log; non-trivial (sync) = >= 5 kinds written, >= 1 sync returned Ok, >= 1 captured wire buffer and the server scan visited >= 1 sqlite file or >= 1 event log. non-trivial (http) = >= 5 kinds written, the initial sync over HTTP succeeded and the scan visited >= 1 sqlite file or >= 1 event log. Distinct = distinct case. A planted-marker self-test of the scanner (every encoding through independent encoders, file walk, deflated zip entry, tracing capture, negative buffer) runs first in every worker; a failing self-test makes the run inconclusive.",
     assumptions: &[
         "the secrecy clause ('holding every byte the server ever received is not enough to recover any of them') is claimed only as its testable shadow: no marker of content or key material in any searched encoding in the server directory or any wire buffer, and no AeadPack of the server's logs decrypts under an unrelated key",
-        "file transfers and pairing over the real HTTP server / relay are not exercised (engine B has no file transfer; upload bodies are the on-disk blobs, which the client directory scan covers); pairing messages are not covered",
+        "HTTP traffic of the `http` sub-check is not tapped on the wire: what the server received is observed through its data directory (event logs / database rows, uploaded blob); upload bodies are the on-disk blobs. Wire buffers are captured on the in-process DirectClient path of the `sync` sub-check only",
+        "pairing messages (relay websocket) are not covered; file downloads to a second device are not exercised (uploads are)",
+        "the audit trail is the process-global file provider the harness configures; the sqlite audit provider is not configured",
         "tracing output is captured with the filter string the product's logger installs by default (crates/logs/src/logger.rs DEFAULT_LOG_LEVEL); leaks that appear only under a more verbose RUST_LOG are out of scope; when VERIF_TRACE installs another global subscriber the tracing place is skipped (classified)",
         "this version of the SDK keeps no account signing key (only an age identity and a per-device Ed25519 signing key); both are read back and searched for",
         "plaintext that is transformed before storage other than by the searched encodings (compression of single values, other alphabets) is not detected; DEFLATE is undone for zip entries only",
@@ -250,7 +252,7 @@ struct KeyStats {
 }
 
 /// Key material read back from an unlocked account.
-async fn register_keys(account: &LocalAccount, passwords: &[SecretString], reg: &mut Registry, tag: &str, ks: &mut KeyStats) {
+async fn register_keys<A: Account>(account: &A, passwords: &[SecretString], reg: &mut Registry, tag: &str, ks: &mut KeyStats) {
     for password in passwords {
         if reg.add_text(format!("{tag}.account password"), "account-password", password.expose_secret()) {
             ks.classes.insert("keys/account-password".into());
@@ -369,7 +371,8 @@ impl CaseScan {
             return Ok(());
         }
         // "folder-name" needles exist in sensitivity mode only
-        if let Some(first) = found.first() {
+        // report the smallest signature so that the same set of leaks always gets the same name
+        if let Some(first) = found.iter().min_by(|a, b| a.signature.cmp(&b.signature)) {
             let sigs = by_signature(&found);
             return Err(Failure::new(
                 first.signature.clone(),
@@ -738,7 +741,7 @@ async fn run_sync(c: &SyncCase, mode: Mode, info: &mut CaseInfo, collected: &mut
         {
             let a = w.devices[0].account.clone();
             let a = a.lock().await;
-            register_keys(&a, &[w.password.clone()], &mut cs.reg, "device 0", &mut ks).await;
+            register_keys(&*a, &[w.password.clone()], &mut cs.reg, "device 0", &mut ks).await;
         }
         for (i, e) in c.pre.iter().enumerate() {
             let path = format!("pre[{i}]");
@@ -815,7 +818,7 @@ async fn run_sync(c: &SyncCase, mode: Mode, info: &mut CaseInfo, collected: &mut
             if account_pw_changed {
                 pws.push(SecretString::from(c.new_passwords.1.clone()));
             }
-            register_keys(&a, &pws, &mut cs.reg, &format!("device {d} (end)"), &mut ks).await;
+            register_keys(&*a, &pws, &mut cs.reg, &format!("device {d} (end)"), &mut ks).await;
         }
         for d in 0..2 {
             let a = w.devices[d].account.clone();
@@ -938,6 +941,185 @@ fn sens_mark_sedit_name(seed: u64, path: &str, e: &mut SEdit, reg: &mut Registry
         }
         _ => {}
     }
+}
+
+// ---------------------------------------------------------------------------
+// Sub-check `http`: the real client (NetworkAccount) against the real server
+// ---------------------------------------------------------------------------
+
+#[derive(Clone, Debug, Serialize, Deserialize, PartialEq, Eq, Hash)]
+pub struct HttpCase {
+    pub seed: u64,
+    pub client_db: bool,
+    pub server_db: bool,
+    /// secrets created before the server is added (sent in the CreateSet)
+    pub specs: Vec<SecretSpec>,
+    pub description: String,
+    pub attach_len: u16,
+    /// secrets created after the server was added (each one syncs)
+    pub more: Vec<SecretSpec>,
+}
+
+fn transfer_options() -> sos_net::NetworkAccountOptions {
+    use std::time::Duration;
+    sos_net::NetworkAccountOptions {
+        file_transfer_settings: sos_net::FileTransferSettings {
+            concurrent_requests: 4,
+            failure_interval: Duration::from_millis(250),
+            failure_expiry: Duration::from_millis(0),
+            retry: sos_protocol::network_client::NetworkRetry::new(4, 0),
+        },
+        ..Default::default()
+    }
+}
+
+pub fn check_http(c: &HttpCase, mode: Mode) -> (CaseInfo, CheckResult, BTreeMap<String, String>) {
+    let mut info = CaseInfo::default();
+    let mut collected = BTreeMap::new();
+    let r = crate::engine_http::block_on_mt(async {
+        sos_core::verif::set_clock(None);
+        run_http(c, mode, &mut info, &mut collected).await
+    });
+    (info, r, collected)
+}
+
+fn blob_files_below(dir: &Path) -> usize {
+    walkdir::WalkDir::new(dir)
+        .into_iter()
+        .flatten()
+        .filter(|e| e.file_type().is_file())
+        .filter(|e| {
+            let p = e.path().to_string_lossy().to_string();
+            (p.contains("/files/") || p.contains("/blobs/")) && !p.ends_with(".upload") && !p.ends_with(".download")
+        })
+        .count()
+}
+
+async fn run_http(c: &HttpCase, mode: Mode, info: &mut CaseInfo, collected: &mut BTreeMap<String, String>) -> CheckResult {
+    use crate::engine_http::{spawn_server, ServerOptions};
+    use sos_net::NetworkAccount;
+    let mut cs = CaseScan::begin(mode);
+    let mut wr = Written::default();
+    let mut ks = KeyStats::default();
+    let server = spawn_server(ServerOptions { data_dir: None, access: None, sqlite: c.server_db }).await.map_err(|e| Failure::new("harness/spawn-server", e))?;
+    let server_root = server.data_dir.parent().unwrap_or(&server.data_dir).to_path_buf();
+    let temp = tempfile::Builder::new().prefix("sv-c03-http-").tempdir().map_err(hf("harness/tempdir", "tempdir"))?;
+    let plain_dir = tempfile::Builder::new().prefix("sv-c03-plain-").tempdir().map_err(hf("harness/tempdir", "plain dir"))?;
+    let client_dir = temp.path().join("client");
+    std::fs::create_dir_all(&client_dir).map_err(hf("harness/mkdir", "mkdir"))?;
+    info.class(format!("client-{}/server-{}", if c.client_db { "sqlite" } else { "fs" }, if c.server_db { "sqlite" } else { "fs" }));
+    let password: SecretString = format!("account pw {}", token(c.seed, "http.account-password")).into();
+    let key: AccessKey = password.clone().into();
+    let target = make_target(&client_dir, c.client_db).await?;
+    let mut acct = NetworkAccount::new_account_with_builder("verif-account".to_string(), password.clone(), target, transfer_options(), |b| b.create_file_password(true).create_archive(true))
+        .await
+        .map_err(hf("harness/new-account", "NetworkAccount::new_account_with_builder"))?;
+    acct.sign_in(&key).await.map_err(hf("harness/sign-in", "sign_in"))?;
+    let default_folder = acct.default_folder().await.ok_or_else(|| Failure::new("harness/no-default-folder", "no default folder"))?;
+    let fid = *default_folder.id();
+    register_keys(&acct, &[password.clone()], &mut cs.reg, "account", &mut ks).await;
+    if mode.sensitivity {
+        cs.reg.add_bytes("account id (20 raw bytes)", "account-id", acct.account_id().as_ref());
+    }
+    let mut synced = false;
+    let mut blob_on_server = false;
+    let res = async {
+        for (i, spec) in c.specs.iter().enumerate() {
+            register_spec(&mut cs.reg, &mut wr, &format!("specs[{i}]"), spec, false);
+            let (m, s) = build_secret(spec);
+            if acct.create_secret(m, s, AccessOptions { folder: Some(fid), ..Default::default() }).await.is_err() {
+                info.class("create-error");
+            }
+        }
+        for t in tokens_in(&c.description) {
+            cs.reg.add_text("description", "description", &t);
+        }
+        if acct.set_folder_description(&fid, &c.description).await.is_err() {
+            info.class("set-description-error");
+        }
+        // external file attachment
+        {
+            let (bytes, marker) = attachment_bytes(c.seed, c.attach_len);
+            let name_token = token(c.seed, "attachment.file-name");
+            let path = plain_dir.path().join(format!("{name_token}.txt"));
+            std::fs::write(&path, &bytes).map_err(hf("harness/attachment", "write plaintext"))?;
+            cs.reg.add_bytes("attachment.bytes (external file)", "attachment", &marker);
+            cs.reg.add_text("attachment.file-name (external file)", "field", &name_token);
+            let label_token = token(c.seed, "attachment.label");
+            cs.reg.add_text("attachment.label", "label", &label_token);
+            if let Ok(secret) = Secret::try_from(path.clone()) {
+                let meta = SecretMeta::new(format!("att {label_token}"), secret.kind());
+                match acct.create_secret(meta, secret, AccessOptions { folder: Some(fid), ..Default::default() }).await {
+                    Ok(_) => {
+                        info.class("external-attachment");
+                        wr.kinds.insert(1);
+                    }
+                    Err(_) => info.class("attachment-create-error"),
+                }
+            }
+        }
+        cs.scan("before the server is added", &[(client_dir.as_path(), Side::Client, "client"), (server_root.as_path(), Side::Server, "server")], vec![]).await?;
+        let origin: sos_core::Origin = server.url.clone().into();
+        match acct.add_server(origin).await {
+            Ok(Some(r)) if r.result.is_ok() => {
+                synced = true;
+                info.class("initial-sync-ok");
+            }
+            Ok(_) => info.class("initial-sync-error"),
+            Err(_) => info.class("add-server-error"),
+        }
+        for (i, spec) in c.more.iter().enumerate() {
+            register_spec(&mut cs.reg, &mut wr, &format!("more[{i}]"), spec, false);
+            let (m, s) = build_secret(spec);
+            if acct.create_secret(m, s, AccessOptions { folder: Some(fid), ..Default::default() }).await.is_err() {
+                info.class("create-error");
+            }
+        }
+        // wait for the upload of the blob (bounded; not reaching it is classified, not a failure)
+        for _ in 0..150 {
+            if blob_files_below(&server.data_dir) > 0 {
+                blob_on_server = true;
+                break;
+            }
+            tokio::time::sleep(std::time::Duration::from_millis(100)).await;
+        }
+        info.class(if blob_on_server { "server-blob-present" } else { "upload-not-settled" });
+        register_keys(&acct, &[password.clone()], &mut cs.reg, "account (end)", &mut ks).await;
+        cs.scan("after sync and file upload over HTTP", &[(client_dir.as_path(), Side::Client, "client"), (server_root.as_path(), Side::Server, "server")], vec![]).await?;
+        let _ = acct.sign_out().await;
+        Ok(())
+    }
+    .await;
+    let _guard = server.shutdown().await;
+    let res = match res {
+        Ok(()) => cs.scan("after sign-out and server shutdown", &[(client_dir.as_path(), Side::Client, "client"), (server_root.as_path(), Side::Server, "server")], vec![]).await,
+        e => e,
+    };
+    fill_stats(info, &cs, &wr, &ks);
+    let s = &cs.stats;
+    info.nontrivial = wr.kinds.len() >= 5 && synced && (s.sqlite_files >= 1 || s.event_logs >= 1);
+    *collected = std::mem::take(&mut cs.collected);
+    res
+}
+
+pub fn http_strategy() -> impl Strategy<Value = HttpCase> {
+    (
+        any::<u64>(),
+        any::<bool>(),
+        any::<bool>(),
+        distinct_kinds(5, 7).prop_flat_map(kinds_to_specs),
+        any::<u16>(),
+        proptest::collection::vec(spec_skeleton(any_kind()), 0..3),
+    )
+        .prop_map(|(seed, client_db, server_db, mut specs, attach_len, mut more)| {
+            for (i, s) in specs.iter_mut().enumerate() {
+                mark_spec(seed, &format!("specs[{i}]"), s);
+            }
+            for (i, s) in more.iter_mut().enumerate() {
+                mark_spec(seed, &format!("more[{i}]"), s);
+            }
+            HttpCase { seed, client_db, server_db, specs, description: format!("d {}", token(seed, "description")), attach_len, more }
+        })
 }
 
 // ---------------------------------------------------------------------------
@@ -1126,6 +1308,7 @@ fn tracing_self_test() -> Result<(), String> {
 }
 
 fn run(shard: &Shard, rep: &mut Report) {
+    crate::engine_http::silence_stdout();
     let t = shard.tier;
     match self_test(process_dir()).and_then(|n| tracing_self_test().map(|_| n)) {
         Ok(n) => {
@@ -1147,6 +1330,10 @@ fn run(shard: &Shard, rep: &mut Report) {
         let (i, r, _) = check_sync(c, mode);
         (i, r)
     }));
+    drive(shard, rep, "http", shard.share(t.pick(16, 96)), http_strategy(), with_shrink_budget(shard, 6, |c| {
+        let (i, r, _) = check_http(c, mode);
+        (i, r)
+    }));
 }
 
 fn replay(_shard: &Shard, sub: &str, case: &Value) -> CheckResult {
@@ -1154,6 +1341,9 @@ fn replay(_shard: &Shard, sub: &str, case: &Value) -> CheckResult {
     if sub == "sync" {
         let c: SyncCase = from_case(case).map_err(|e| Failure::new("harness", e))?;
         check_sync(&c, Mode::default()).1
+    } else if sub == "http" {
+        let c: HttpCase = from_case(case).map_err(|e| Failure::new("harness", e))?;
+        crate::engine_http::with_silenced_stdout(|| check_http(&c, Mode::default())).1
     } else {
         let c: LocalCase = from_case(case).map_err(|e| Failure::new("harness", e))?;
         check_local(&c, Mode::default()).1
@@ -1185,7 +1375,7 @@ pub fn sensitivity_main(args: &[String]) -> i32 {
     for i in 0..n {
         let c = ls.new_tree(&mut runner).unwrap().current();
         let (_, r, found) = check_local(&c, mode);
-        println!("local case {i} ({}): {} signature(s){}", c.cfg.label(), found.len(), r.err().map(|f| format!(" [error {}]", f.signature)).unwrap_or_default());
+        println!("local case {i} ({}): {} signature(s){} {:?}", c.cfg.label(), found.len(), r.err().map(|f| format!(" [error {}]", f.signature)).unwrap_or_default(), found.keys().map(|k| k.trim_start_matches("c03/plaintext/")).collect::<Vec<_>>());
         for (k, v) in found {
             let e = all.entry(k).or_insert((0, v));
             e.0 += 1;
@@ -1193,6 +1383,16 @@ pub fn sensitivity_main(args: &[String]) -> i32 {
         let c = ss.new_tree(&mut runner).unwrap().current();
         let (_, r, found) = check_sync(&c, mode);
         println!("sync case {i} ({}, server {}): {} signature(s){}", c.cfg.label(), if c.server_db { "sqlite" } else { "fs" }, found.len(), r.err().map(|f| format!(" [error {}]", f.signature)).unwrap_or_default());
+        for (k, v) in found {
+            let e = all.entry(k).or_insert((0, v));
+            e.0 += 1;
+        }
+    }
+    let hs = http_strategy();
+    for i in 0..n.min(3) {
+        let c = hs.new_tree(&mut runner).unwrap().current();
+        let (info, r, found) = crate::engine_http::with_silenced_stdout(|| check_http(&c, mode));
+        println!("http case {i} (client {}, server {}): {} signature(s){} classes {:?}", if c.client_db { "sqlite" } else { "fs" }, if c.server_db { "sqlite" } else { "fs" }, found.len(), r.err().map(|f| format!(" [error {}: {}]", f.signature, f.message)).unwrap_or_default(), info.classes.iter().filter(|c| c.contains("sync") || c.contains("blob") || c.contains("upload") || c.contains("error")).collect::<Vec<_>>());
         for (k, v) in found {
             let e = all.entry(k).or_insert((0, v));
             e.0 += 1;
